@@ -24,6 +24,9 @@ const PLACEMENTS = {
   plus_both: P(['x = ', 0, ' + a + ', 1, ';'], [{}, {}]),
   plus_literals_only: P(['x = ', 0, ' + ', 1, ';'], [{}, {}]),
   plus_assign: P(['x += ', 0, ';']),
+  plus_assign_computed_key: P(['o[', 0, '] += a;']),
+  plus_assign_key_then_member: P(['o[', 0, '].p += a + ', 1, ';'], [{}, {}]),
+  plus_assign_both: P(['o[', 0, '] += ', 1, ';'], [{}, {}]),
   method_two_args: P(['x = a.concat(', 0, ', ', 1, ');'], [{}, {}]),
   literal_receiver_and_arg: P(['x = ', 0, '.concat(a, ', 1, ');'], [{}, {}]),
   plus_two_literals_then_ident: P(['x = ', 0, ' + ', 1, ' + a;'], [{}, {}]),
@@ -128,6 +131,8 @@ const WRAPS = {
   optmember: { parts: ['s?.[', H, ']'] },
   optcall_arg: { parts: ['s?.concat(', H, ')'] },
   assign_member: { parts: ['(o.p = ', H, ')'] },
+  plus_assign_computed_key: { parts: ['(o[', H, '] += a)'] },
+  plus_assign_object_key: { parts: ['(o[', H, '].p += a)'] },
   plus_assign_member: { parts: ['(o.p += ', H, ')'] },
   logical: { parts: ['(a || ', H, ')'] },
   nullish: { parts: ['(a ?? ', H, ')'] },
